@@ -237,6 +237,8 @@ SUBS = [
         budget={"quick": 240, "thorough": 3000}, desc="log line, info.yaml totals and haplotig-removal count vs the AGP files written"),
     Sub("cli_haplotypes", kind="hyp", strategy=lambda: gen.tagged_case(two_haplotypes=True, primary_mode=False, max_scaffolds=6, max_contigs=4, unprefixed_in_primary=True), body=body_cli,
         budget={"quick": 320, "thorough": 4000}, desc="two-haplotype maps (several listed assemblies, some input scaffolds without a haplotype prefix): info.yaml totals vs the files written"),
+    Sub("cli_primary", kind="hyp", strategy=lambda: gen.tagged_case(two_haplotypes=True, primary_mode=True, max_scaffolds=6, max_contigs=4, unprefixed_in_primary=True), body=body_cli,
+        budget={"quick": 240, "thorough": 3000}, desc="Primary mode with a merged all_haplotigs file (other haplotype + scaffolds of no haplotype): figures vs ALL files written"),
     Sub("cli_haplotigs", kind="hyp", strategy=haplotig_sliver_cases, body=body_cli,
         budget={"quick": 320, "thorough": 4000}, desc="same on maps full of Haplotig pieces that cover mostly gap (overlap results emptied after the H_n name was issued)"),
 ]
